@@ -299,13 +299,14 @@ PROFILES = {
 }
 
 
-def gen(seed, n, profiles=None, first_id=1):
+def gen(seed, n, profiles=None, first_id=1, max_avx=2):
     rng = random.Random(seed)
     names = profiles or list(PROFILES)
     res = []
     for i in range(n):
         name = names[i % len(names)]
         p = dict(PROFILES[name], name=name)
+        p["avx"] = [min(a, max_avx) for a in p["avx"]]
         res.append(G(rng, first_id + i, p).scenario())
     return res
 
